@@ -495,8 +495,9 @@ def _native_sweep(script, rule, n_quick, n_thorough):
 PROPS['C03'] = dict(
     modules=['contracts.dtw_py', 'contracts.dtw_c'],
     contracts=['dtw.distance#maxdist', 'dtw.warping_paths#maxdist', 'dd_dtw.c::dtw_distance_euclidean#maxdist',
-               'dd_dtw.c::dtw_distance#maxdist'],
-    lemmas=['CellAbove', 'RowAboveLeft', 'RowAboveRight', 'AgreeStep', 'RowAllInf', 'RowLeadInf'],
+               'dd_dtw.c::dtw_distance#maxdist', 'dd_dtw.c::dtw_distance_ndim_euclidean#maxdist',
+               'dd_dtw.c::dtw_distance_ndim#maxdist'],
+    lemmas=['CellAbove', 'RowAboveLeft', 'RowAboveRight', 'AgreeStep', 'RowAllInf', 'RowLeadInf', 'InnerNdNonneg'],
     bounded={'early-abandoning-native-sweep': _native_sweep(
         'pruning_native.py',
         'random small pairs (lengths <= 6, ndim 1..2) x window/penalty/psi/inner distance x four routes (Python/C distance, '
@@ -506,13 +507,13 @@ PROPS['C03'] = dict(
     level_text='Both engines, single pairs, without psi: the PrunedDTW bookkeeping (start column sc, end column ec, early break, final '
                'test) is proved, for all lengths, values, windows, penalties and max_step, never to change a result. Python '
                'dtw.distance(max_dist=m), dtw.warping_paths(max_dist=m) (Euclidean inner distance, or keep_int_repr=True) and the C '
-               'kernel dtw_distance_euclidean: result_fn of the unbounded accumulated cost W(r, c) whenever that cost is below the '
+               'kernels dtw_distance_euclidean, dtw_distance_ndim_euclidean: result_fn of the unbounded accumulated cost W(r, c) whenever that cost is below the '
                'internal bound, inf whenever it is above it, never another finite number; cells of the returned matrix that the '
-               'specification does not put above the bound are exact. C kernel dtw_distance (squared inner distance) and '
+               'specification does not put above the bound are exact. C kernels dtw_distance, dtw_distance_ndim (squared inner distance) and '
                'warping_paths with square-rooted output: a distance below the user bound is returned unchanged (the final test there '
                'is on the square-rooted value; what is returned above the bound is bounded-sweep only). Loop invariant: every buffer '
                'cell either equals W or both are above the bound; columns left of sc and right of ec are above the bound in W. '
-               'All other routes (ndim kernels, C cost-matrix routines, distance matrices, use_pruning, psi) are bounded sweeps only.',
+               'All other routes (C cost-matrix routines, distance matrices, use_pruning, psi) are bounded sweeps only.',
     level_note='The proof speaks about the internal bound (max_dist squared for the squared-Euclidean inner distance): the '
                'property excludes a rounding-width neighbourhood of the true distance, and the contract avoids it by '
                'comparing accumulated costs with the adjusted bound exactly as the code does. Trusted: dvc Python semantics '
@@ -522,7 +523,7 @@ PROPS['C03'] = dict(
                'outside the proved route (psi, C cost matrices).',
     trusted_base=[PY_A1, 'A2', A3_NUMPY, A7],
     assumptions=[PY_A1, 'A2', A3_NUMPY, A7, 'sqrt(fl(x*x)) == x for finite normal x*x (theory sqrtsq)', 'bounded part: lengths <= 6, sampled options'],
-    not_decided=['C ndim kernels with max_dist: bounded only', 'C kernel dtw_distance and square-rooted warping_paths above the bound: bounded only',
+    not_decided=['C kernels dtw_distance / dtw_distance_ndim and square-rooted warping_paths above the bound: bounded only',
                  'C cost-matrix routines with max_dist: bounded only',
                  'dtw.warping_paths(max_dist) with the squared inner distance and keep_int_repr=False: the final test compares a '
                  'square-rooted value with the user bound (sqrt/square round trip, excluded by the property): bounded only',
